@@ -21,6 +21,9 @@ pub struct State {
     pub is_last_must_be_ret: bool,
     pub must_assign_to: Option<(Core, Option<Name>)>,
     pub is_remove_last_ret: bool,
+
+    /// Node is operand of an expression, so must itself be an expression in the output.
+    pub is_operand: bool,
 }
 
 impl From<&GenArguments> for State {
@@ -44,6 +47,14 @@ impl State {
             is_remove_last_ret: false,
             must_assign_to: None,
             annotate: false,
+            is_operand: false,
+        }
+    }
+
+    pub fn is_operand(&self, is_operand: bool) -> State {
+        State {
+            is_operand,
+            ..self.clone()
         }
     }
 
